@@ -288,6 +288,13 @@ where
                 };
                 xml_dom::ElementMut::set_attribute(&n, name.as_str(), uri.as_str())?;
             }
+            // `xmlns=""` written on the element: its parent has a default namespace, the element has none
+            let own = namespace_bindings(&v)?;
+            if inherited.iter().any(|(prefix, _)| prefix == "xmlns")
+                && !own.iter().any(|(prefix, _)| prefix == "xmlns")
+            {
+                xml_dom::ElementMut::set_attribute(&n, "xmlns", "")?;
+            }
 
             if let Some(attributes) = v.attributes() {
                 for descendant in attributes.iter() {
